@@ -128,4 +128,198 @@ theorem rto_mode_blocks_sending (v : VSock) (c : Ctx) (hp : v.transportPending =
   unfold sendTxQueue
   simp [hp, hnotexp, hr, pure, Except.pure, bind, Except.bind]
 
+/-! ### Byte-level budget and the composite statement for one pass of `send_tx_queue` -/
+
+theorem addExt_nofit (bufLen : Nat) (out : List Nat) (pos id : Nat) (payload : List Nat) (h : bufLen < out.length + 2) :
+    addExt bufLen out pos id payload = (out, pos) := by
+  unfold addExt
+  have : ¬ (bufLen ≥ out.length + 2 + payload.length) := by omega
+  simp [this]
+
+theorem serialize_header_len (h : Header) (hb : List Nat) (hs : h.serialize Gen.UTP_HEADER = some hb) : hb.length = 20 := by
+  unfold Header.serialize at hs
+  simp only [Gen.UTP_HEADER, Nat.lt_irrefl, if_false, Option.some.injEq] at hs
+  subst hs
+  have hbase : ([(h.htype * 16 + Gen.WIRE_VERSION) % 256, Gen.NO_NEXT_EXT] ++ toBe16 h.connId ++ toBe32 h.ts ++
+    toBe32 h.tsDiff ++ toBe32 h.wnd ++ toBe16 h.seqNr ++ toBe16 h.ackNr).length = 20 := by simp [toBe16, toBe32]
+  generalize hB : ([(h.htype * 16 + Gen.WIRE_VERSION) % 256, Gen.NO_NEXT_EXT] ++ toBe16 h.connId ++ toBe32 h.ts ++
+    toBe32 h.tsDiff ++ toBe32 h.wnd ++ toBe16 h.seqNr ++ toBe16 h.ackNr) = base at hbase ⊢
+  have nf : ∀ pos id payload, addExt 20 base pos id payload = (base, pos) :=
+    fun pos id payload => addExt_nofit _ _ _ _ _ (by omega)
+  cases h.sack <;> cases h.closeReason <;> simp only [nf] <;> exact hbase
+
+theorem prepare2_len (ring : List Nat) (off len : Nat) (p : List Nat)
+    (h : TxRing.prepare2 [] ring off len = .ok p) : p.length = len := by
+  unfold TxRing.prepare2 at h
+  simp only [List.length_nil, Nat.zero_min, List.drop_nil, Nat.sub_zero, List.take_nil, List.nil_append] at h
+  split at h
+  · simp at h
+  · split at h
+    · simp at h
+    · rename_i h1 h2
+      simp only [TxRing.SliceRes.ok.injEq] at h
+      subst h
+      rw [List.length_take, List.length_drop] at *
+      omega
+
+/-- `send_data!` in the `sent` outcome appends exactly one datagram: 20 header bytes + the segment's payload. -/
+theorem sendData_bytes (v : VSock) (c : Ctx) (h : Header) (view : SegView) (v' : VSock) (c' : Ctx)
+    (hs : v.sendData c h view = .ok (v', c', .sent)) :
+    ∃ d, c'.out = c.out ++ [d] ∧ d.length = 20 + view.seg.payloadSize := by
+  unfold sendData at hs
+  split at hs
+  · simp at hs
+  · dsimp only at hs
+    cases hser : (v.dataHeader c h view).serialize Gen.UTP_HEADER with
+    | none => rw [hser] at hs; simp at hs
+    | some hb =>
+      rw [hser] at hs
+      simp only at hs
+      cases hprep : TxRing.prepare2 [] v.tx.ring view.payloadOffset view.seg.payloadSize with
+      | bugOffset => rw [hprep] at hs; simp at hs
+      | bugLength => rw [hprep] at hs; simp at hs
+      | ok payload =>
+        rw [hprep] at hs
+        simp only at hs
+        have ht := transportSend_out c (hb ++ payload)
+        cases ho : transportSend c (hb ++ payload) with
+        | mk c1 o =>
+          rw [ho] at hs ht
+          simp only at hs ht
+          cases o with
+          | error => simp at hs
+          | emsgsize => simp [pure, Except.pure] at hs
+          | pending => simp [pure, Except.pure] at hs
+          | sent =>
+            simp only [pure, Except.pure, Except.ok.injEq, Prod.mk.injEq] at hs
+            obtain ⟨_, rfl, _⟩ := hs
+            exact ⟨hb ++ payload, ht.1 rfl, by rw [List.length_append, serialize_header_len _ _ hser, prepare2_len _ _ _ _ hprep]⟩
+
+theorem sendData_notsent (v : VSock) (c : Ctx) (h : Header) (view : SegView) (v' : VSock) (c' : Ctx) (r : DataSend)
+    (hs : v.sendData c h view = .ok (v', c', r)) (hr : r ≠ .sent) : c'.out = c.out := by
+  unfold sendData at hs
+  split at hs
+  · simp at hs
+  · dsimp only at hs
+    cases hser : (v.dataHeader c h view).serialize Gen.UTP_HEADER with
+    | none => rw [hser] at hs; simp at hs
+    | some hb =>
+      rw [hser] at hs
+      simp only at hs
+      cases hprep : TxRing.prepare2 [] v.tx.ring view.payloadOffset view.seg.payloadSize with
+      | bugOffset => rw [hprep] at hs; simp at hs
+      | bugLength => rw [hprep] at hs; simp at hs
+      | ok payload =>
+        rw [hprep] at hs
+        simp only at hs
+        have ht := transportSend_out c (hb ++ payload)
+        cases ho : transportSend c (hb ++ payload) with
+        | mk c1 o =>
+          rw [ho] at hs ht
+          simp only at hs ht
+          cases o with
+          | error => simp at hs
+          | emsgsize =>
+            simp only [pure, Except.pure, Except.ok.injEq, Prod.mk.injEq] at hs
+            obtain ⟨_, rfl, _⟩ := hs
+            exact ht.2 (by simp)
+          | pending =>
+            simp only [pure, Except.pure, Except.ok.injEq, Prod.mk.injEq] at hs
+            obtain ⟨_, rfl, _⟩ := hs
+            exact ht.2 (by simp)
+          | sent =>
+            simp only [pure, Except.pure, Except.ok.injEq, Prod.mk.injEq] at hs
+            exact absurd hs.2.2.symm hr
+
+/-- **First transmissions never exceed the byte budget**: the datagrams the loop hands to the transport are
+appended in order and their payload bytes sum to at most `remaining`. -/
+theorem newDataLoop_bytes (h : Header) (views : List SegView) (v : VSock) (c : Ctx) (remaining : Nat)
+    (v' : VSock) (c' : Ctx) (r : Option (Nat × Nat))
+    (hl : newDataLoop h views v c remaining = .ok (v', c', r)) :
+    ∃ ds, c'.out = c.out ++ ds ∧ (ds.map (fun d => d.length - 20)).sum ≤ remaining := by
+  induction views generalizing v c remaining with
+  | nil =>
+    simp only [newDataLoop, pure, Except.pure, Except.ok.injEq, Prod.mk.injEq] at hl
+    obtain ⟨_, rfl, _⟩ := hl
+    exact ⟨[], by simp, by simp⟩
+  | cons item rest ih =>
+    unfold newDataLoop at hl
+    split at hl
+    · simp only [pure, Except.pure, Except.ok.injEq, Prod.mk.injEq] at hl
+      obtain ⟨_, rfl, _⟩ := hl
+      exact ⟨[], by simp, by simp⟩
+    · rename_i hfit
+      split at hl
+      · simp at hl
+      · rename_i v1 c1 hsd
+        obtain ⟨d, hd, hlen⟩ := sendData_bytes v c h item v1 c1 hsd
+        obtain ⟨ds, hds, hsum⟩ := ih v1 c1 _ hl
+        refine ⟨d :: ds, by rw [hds, hd]; simp, ?_⟩
+        simp only [List.map_cons, List.sum_cons, hlen]
+        omega
+      · rename_i v1 c1 hsd
+        have h2 := sendData_notsent v c h item v1 c1 .pending hsd (by simp)
+        simp only [pure, Except.pure, Except.ok.injEq, Prod.mk.injEq] at hl
+        obtain ⟨_, rfl, _⟩ := hl
+        exact ⟨[], by simp [h2], by simp⟩
+      · rename_i v1 c1 hsd
+        have h2 := sendData_notsent v c h item v1 c1 .emsgsize hsd (by simp)
+        simp only [pure, Except.pure, Except.ok.injEq, Prod.mk.injEq] at hl
+        obtain ⟨_, rfl, _⟩ := hl
+        exact ⟨[], by simp [h2], by simp⟩
+
+/-- In `sentPayload` form. -/
+theorem newDataLoop_sentPayload (h : Header) (views : List SegView) (v : VSock) (c : Ctx) (remaining : Nat)
+    (v' : VSock) (c' : Ctx) (r : Option (Nat × Nat))
+    (hl : newDataLoop h views v c remaining = .ok (v', c', r)) : sentPayload c c' ≤ remaining := by
+  obtain ⟨ds, hds, hsum⟩ := newDataLoop_bytes h views v c remaining v' c' r hl
+  unfold sentPayload
+  rw [hds, List.drop_left]
+  exact hsum
+
+
+/-- **Bytes in flight stay within the peer's advertised window** (ordinary sending: no loss recovery or RTO
+retransmission in progress). Whatever `send_tx_queue` transmits in one pass, (bytes in flight before) + (payload
+bytes put on the wire by this pass) ≤ the peer's last advertised window — unless more than that was already in
+flight (the peer shrank its window), in which case nothing at all is sent. -/
+theorem first_transmissions_within_peer_window (v : VSock) (c : Ctx) (v' : VSock) (c' : Ctx)
+    (hp : v.transportPending = false) (hne : Timer.expired v.timers.retransmit v.pollNow = false)
+    (hr : v.rtoRetransmissions = 0) (hph : ∀ rec, v.recovery.phase ≠ .recovering rec)
+    (hs : v.sendTxQueue c = .ok (v', c')) :
+    sentPayload c c' + v.segs.calcFlightSize v.lastSentSeqNr ≤
+      max (v.segs.calcFlightSize v.lastSentSeqNr) v.lastRemoteWindow := by
+  unfold sendTxQueue at hs
+  simp only [hp, hne, hr, Bool.false_eq_true, if_false, pure, Except.pure, bind, Except.bind, Nat.lt_irrefl] at hs
+  have hrc : v.recovery.remainingCwnd v.lastRemoteWindow = none := by
+    unfold Recovery.remainingCwnd
+    split
+    · rename_i rec h; exact absurd h (hph rec)
+    · rfl
+  simp only [hrc] at hs
+  have h0 : sentPayload c c = 0 := by simp [sentPayload]
+  split at hs
+  · simp only [Except.ok.injEq, Prod.mk.injEq] at hs
+    obtain ⟨_, rfl⟩ := hs
+    rw [h0]; omega
+  · split at hs
+    · simp [throw, throwThe, MonadExceptOf.throw] at hs
+    · rename_i views _
+      split at hs
+      · simp [throw, throwThe, MonadExceptOf.throw] at hs
+      · rename_i v1 c1 hl
+        simp only [Except.ok.injEq, Prod.mk.injEq] at hs
+        obtain ⟨_, rfl⟩ := hs
+        have := newDataLoop_sentPayload _ _ _ _ _ _ _ _ hl
+        have e : sentPayload c c1 = sentPayload { c with cc := (c.cc.read "window").snd } c1 := rfl
+        rw [e]
+        omega
+      · rename_i v1 c1 seqNr size hl
+        have := newDataLoop_sentPayload _ _ _ _ _ _ _ _ hl
+        have e : sentPayload c c1 = sentPayload { c with cc := (c.cc.read "window").snd } c1 := rfl
+        split at hs
+        · simp [throw, throwThe, MonadExceptOf.throw] at hs
+        · simp only [Except.ok.injEq, Prod.mk.injEq] at hs
+          obtain ⟨_, rfl⟩ := hs
+          rw [e]; omega
+        · simp [throw, throwThe, MonadExceptOf.throw] at hs
 end UtpVerif.Props.C05
